@@ -1,7 +1,7 @@
 (** Dispatch table of the correspondence checks: property number, then the
     lab kind tag that leads every case input. *)
 From Coq Require Import List ZArith.
-From TR Require Import Lib.Sx Run.C12 Run.Eng.
+From TR Require Import Lib.Sx Run.C12 Run.Eng Run.Doc.
 Import ListNotations.
 Open Scope Z_scope.
 
@@ -11,5 +11,6 @@ Definition check (prop : Z) (inp impl : sx) : sx :=
   if prop =? 12 then check_c12 inp impl
   else match kind_of inp with
        | 1 => check_eng prop inp impl
+       | 2 => check_doc prop inp impl
        | _ => badcase
        end.
